@@ -32,6 +32,8 @@ def decode_value(v: Any) -> Any:
             return frozenset(decode_value(x) for x in v["$fs"])
         if "$p" in v:
             return Path(v["$p"])
+        if "$bomb" in v:
+            return M.load().Bomb(v["$bomb"])
         raise ValueError(v)
     if isinstance(v, list):
         raise ValueError(f"bare list in value spec: {v}")
@@ -60,6 +62,8 @@ def typed_value(v: Any) -> Any:
         return ("fs", frozenset(typed_value(x) for x in v))
     if isinstance(v, list):
         return ("list", tuple(typed_value(x) for x in v))
+    if type(v).__name__ == "Bomb":
+        return ("bomb", v.tag)
     return ("other", type(v).__name__, repr(v))
 
 
@@ -174,7 +178,8 @@ def prop_value(e: ENode, f: M.FieldDef) -> Any:
     """the value the live node will hold for a property field."""
     if f.init and f.name in e.props:
         return e.props[f.name]
-    return eval(f.default, {"Color": M.load().Color, "Path": Path, "frozenset": frozenset})  # noqa: S307
+    return eval(f.default, {"Color": M.load().Color, "Path": Path, "frozenset": frozenset,  # noqa: S307
+                            "Bomb": M.load().Bomb})
 
 
 def content_key(e: ENode, memo: dict | None = None) -> Any:
@@ -367,6 +372,8 @@ def st_value(kind: str, strs: Any = None):
         return st.sampled_from(["x", "a/b", "/abs/p.txt", "rel/../q", "."]).map(lambda p: {"$p": p})
     if kind == "lit":
         return st.sampled_from(["a", 1])
+    if kind == "bomb":
+        return st.integers(0, 5).map(lambda n: {"$bomb": n})
     raise ValueError(kind)
 
 
@@ -389,7 +396,9 @@ class TreeGen:
         origin_index: int = 30,
         extra_leaves: tuple[str, ...] = (),
         detach_rate: float = 0.0,
+        bombs: bool = False,
     ) -> None:
+        self.bombs = bombs
         self.extra_leaves = extra_leaves
         self.detach_rate = detach_rate
         self.leaves = leaves
@@ -520,6 +529,11 @@ class TreeGen:
             }
         )
         opts = [uni, seq, mixed, inh]
+        if self.bombs:
+            bomb = st.fixed_dictionaries(
+                {"c": st.just("BombNode"), "o": self.origin(), "p": self.props("BombNode"),
+                 "k": st.fixed_dictionaries({"child": opt, "items": items})})
+            opts += [bomb, bomb]
         if self.detach_rate > 0:
             # a detached leaf directly followed by a twin that takes over its id and differs
             # only in a non-comparable property
